@@ -619,11 +619,24 @@ func checkInitFailureCarriesError(c *report.Ctx) {
 	n, ok := 0, true
 	pos := fpos(f)
 	for _, e := range an.Exits(f) {
-		if len(e.Vals) != 2 || an.IsNil(e.Vals[1]) {
+		if len(e.Vals) < 2 || an.IsNil(e.Vals[len(e.Vals)-1]) {
 			continue
 		}
 		n++
-		if must, _ := ord.Before(e.Ret); must&3 != 3 {
+		if must, _ := ord.Before(e.Ret); must&3 == 3 {
+			continue
+		}
+		// or the two travel as results of their own, straight from the failure that was received
+		gotMsg, gotTyp := false, false
+		for _, v := range e.Vals[:len(e.Vals)-1] {
+			if loadOf("L/interop.InitFailure", "ErrorMessage")(v) {
+				gotMsg = true
+			}
+			if loadOf("L/interop.InitFailure", "ErrorType")(v) {
+				gotTyp = true
+			}
+		}
+		if !gotMsg || !gotTyp {
 			ok = false
 			pos = an.InstrPos(e.Ret)
 		}
